@@ -59,6 +59,7 @@ class Sched(object):
         self.abort_reason = None
         self.done = threading.Event()
         self.clock_jumps = []        # (from, to, task, tag)
+        self.spin_cost = 0.0         # virtual seconds charged for a failed try-lock (a thread that spins on one burns real time)
         self.on_yield = None         # optional callback(sched, task, tag) at every yield point (invariant-at-a-hook monitors)
         self.on_clock_jump = None    # optional callback(sched, task) evaluated before time advances (lost wake-up detector)
         self.pct_changes = sorted(self.rng.randrange(1, 400) for _ in range(pct_depth)) if policy == "pct" else []
@@ -390,6 +391,8 @@ class SimLock(object):
             self.acquisitions += 1
             return True
         if not blocking:
+            if s.spin_cost:
+                s.now += s.spin_cost
             return False
         ok = s.block(lambda: not self._locked, None if timeout is None or timeout < 0 else timeout, ("lock", self.name))
         if ok and not self._locked:
@@ -400,6 +403,8 @@ class SimLock(object):
 
     def release(self):
         if not self._locked:
+            if self.sched.aborting:
+                raise SchedAbort()      # unwinding a `with` whose acquire was cut short by the abort
             raise RuntimeError("release unlocked lock")
         self._locked, self.owner = False, None
         self.sched.yield_point(("rel", self.name))
